@@ -159,7 +159,8 @@ def e2e_suite(ctx: Ctx, n: int) -> None:
                 if left["threads"] or left["processes"]:
                     ctx.violation("e2e", case, f"workers of the run are still alive after the call ended: {left}", left, {"threads": [], "processes": []})
                 # no dataset dropped while a step still needs it: a premature drop shows as a failed download in a run without injected fault
-                if fault is None and rr.error and ("not found" in rr.error or "empty apache flight" in rr.error):
+                known_mp_tfs = mode == "mp" and any(s_["kind"] == "tfs" and s_["from"] != "PyArrowTable" for s_ in exp["steps"])  # F-C14-flight-transform-step: fails on its own
+                if fault is None and not known_mp_tfs and rr.error and ("not found" in rr.error or "empty apache flight" in rr.error):
                     ctx.violation("e2e", case, "a step failed to download a dataset that had already been dropped", rr.error[-300:], None)
     S.stop_flight_server()
 
